@@ -45,13 +45,13 @@ Section Wrap.
      denotation *)
   Lemma den_fence_adm f top ho h titled name first o k len X a b bd :
     wfW env orc (Adm titled name first o k len) X ->
-    (forall lineno, den_text_at env orc f false 0 h (unlines X) lineno = bd lineno) ->
+    (forall h' lineno, den_text_at env orc f false 0 h' (unlines X) lineno = bd h' lineno) ->
     den_tok env orc (S f) top ho h
       (TFence (is_colon k) (info_of name first) (unlines (opt_lines o ++ X)) (Some (a, b)))
-    = expected env orc (Adm titled name first o k len) X bd a.
+    = expected env orc f (Adm titled name first o k len) X bd h a.
   Proof.
-    intros [Ht [Hsafe [Hinfo [Hrst [Hdir [p [Hp [Hbody Hne]]]]]]]] Hbd.
-    subst titled. cbn [den_tok den_step]. unfold den_fence. rewrite Hinfo.
+    intros [Hsafe [Hinfo [Hrst [Hdir [p [Hp [Hbody Hne]]]]]]] Hbd.
+    cbn [den_tok den_step]. unfold den_fence. rewrite Hinfo.
     rewrite directive_name_braces. rewrite Hrst. rewrite andb_false_r.
     cbn [token_line bind].
     unfold den_directive. rewrite Hdir.
@@ -62,12 +62,29 @@ Section Wrap.
     destruct (o_opt_validate orc name (p_optblock p)) as [attrs warns].
     rewrite O_adm. unfold admonition_run. rewrite Hbody.
     destruct X as [|x X']; [congruence|]. cbn [is_nil].
-    cbn [cb_nested_parse den_mock_state bind fst snd].
-    rewrite <- Hbd. unfold den_text_at, den_nested.
-    rewrite (join_nl_unlines (x :: X')) by discriminate.
-    destruct (o_P orc (s_env h) (unlines (x :: X'))) as [toks e'].
-    destruct (den_fold (den_tok env orc f false 0) (set_env e' h) _)
-      as [[[ns h'] bb]|e]; reflexivity.
+    set (off := (p_off p - prepended_lines (is_colon k) (unlines (opt_lines o ++ x :: X')))%nat).
+    assert (Hbody_den : forall h1 (n1 : node),
+      (do r2 <- cb_nested_parse (den_mock_state env orc (den_tok env orc f) a) (x :: X') off n1 h1;
+       Ok (DNodes [fst r2], snd r2))
+      = (do r <- bd h1 (a + N.of_nat off);
+         Ok (DNodes [add_kids n1 (fst (fst r))], snd (fst r)))).
+    { intros h1 n1. cbn [cb_nested_parse den_mock_state].
+      rewrite <- Hbd. unfold den_text_at, den_nested.
+      rewrite (join_nl_unlines (x :: X')) by discriminate.
+      destruct (o_P orc (s_env h1) (unlines (x :: X'))) as [toks e'].
+      destruct (den_fold (den_tok env orc f false 0) (set_env e' h1) _) as [[[ns h'] bb]|e];
+        reflexivity. }
+    destruct titled.
+    - destruct (p_args p) as [|ta targs]; [reflexivity|].
+      cbn [cb_inline_text den_mock_state]. unfold den_title.
+      destruct (den_nested env orc (den_tok env orc f) false h ta a true 0) as [[[tn h1] tb]|e];
+        [|reflexivity].
+      cbn [bind fst snd].
+      rewrite (Hbody_den h1 (add_kids (Node NAdm (name ++ attrs) (Some a) []) [Node NTitle ta None tn])).
+      destruct (bd h1 (a + N.of_nat off)) as [[[ns h'] bb]|e]; reflexivity.
+    - cbn [bind fst snd].
+      rewrite (Hbody_den h (Node NAdm (name ++ attrs) (Some a) [])).
+      destruct (bd h (a + N.of_nat off)) as [[[ns h'] bb]|e]; reflexivity.
   Qed.
 
   Lemma wf_parts w : forall X, wfW env orc w X ->
@@ -76,22 +93,24 @@ Section Wrap.
     /\ print_lines w X = (repeat (fchar k) len ++ info) :: body ++ [close_line k len].
   Proof.
     induction w as [titled name first o k len|o IHo i IHi|path|key]; intros X H.
-    - destruct H as [_ [Hsafe _]]. cbn [fence_parts]. split; [exact Hsafe|].
+    - destruct H as [Hsafe _]. cbn [fence_parts]. split; [exact Hsafe|].
       cbn [print_lines]. unfold open_line, info_of. rewrite <- !app_assoc. reflexivity.
     - destruct H as [Ho Hi]. cbn [fence_parts print_lines]. apply IHo. exact Ho.
     - destruct H.
     - destruct H.
   Qed.
 
-  Lemma expected_flag w : forall X bd pos r,
-    wfW env orc w X -> expected env orc w X bd pos = Ok r -> snd r = false.
+  Lemma expected_flag w : forall F X bd h pos r,
+    wfW env orc w X -> expected env orc F w X bd h pos = Ok r -> snd r = false.
   Proof.
-    induction w as [titled name first o k len|o IHo i IHi|path|key]; intros X bd pos r Hwf H.
+    induction w as [titled name first o k len|o IHo i IHi|path|key]; intros F X bd h pos r Hwf H.
     - cbn [expected] in H.
-      destruct (parse_directive_text adm_class first (directive_content k (opt_lines o ++ X)))
+      destruct (parse_directive_text (cls_of titled) first (directive_content k (opt_lines o ++ X)))
         as [p|]; [|discriminate].
       destruct (o_opt_validate orc name (p_optblock p)) as [attrs warns].
-      destruct (bd _); [|discriminate].
+      match type of H with (do r1 <- ?E; _) = _ => destruct E as [r1|]; [|discriminate] end.
+      cbn [bind] in H.
+      destruct (bd _ _); [|discriminate].
       simpl in H. inversion H; reflexivity.
     - destruct Hwf as [Ho Hi]. cbn [expected] in H. eapply IHo; eauto.
     - destruct Hwf.
@@ -101,8 +120,8 @@ Section Wrap.
   (* any depth *)
   Lemma den_wrapper w : forall X F bd top ho h a b,
     wfW env orc w X ->
-    (forall lineno, den_text_at env orc F false 0 h (unlines X) lineno = bd lineno) ->
-    den_tok env orc (depth w + F) top ho h (fence_tok w X a b) = expected env orc w X bd a.
+    (forall h' lineno, den_text_at env orc F false 0 h' (unlines X) lineno = bd h' lineno) ->
+    den_tok env orc (depth w + F) top ho h (fence_tok w X a b) = expected env orc F w X bd h a.
   Proof.
     induction w as [titled name first o k len|o IHo i IHi|path|key];
       intros X F bd top ho h a b Hwf Hbd.
@@ -111,17 +130,17 @@ Section Wrap.
       unfold fence_tok in *. cbn [fence_parts depth expected].
       rewrite <- Nat.add_assoc.
       apply (IHo (print_lines i X) (depth i + F)%nat); [exact Ho|].
-      intro lineno. unfold den_text_at.
+      intros h' lineno. unfold den_text_at.
       pose proof (wf_parts i X Hi) as Hparts.
       destruct (fence_parts i X) as [[[ki leni] infoi] bodyi] eqn:Ep.
       destruct Hparts as [Hsafe Hprint].
       rewrite Hprint.
       change (unlines ((repeat (fchar ki) leni ++ infoi) :: bodyi ++ [close_line ki leni]))
         with (fence_text ki leni infoi bodyi).
-      rewrite (O_fence (s_env h) ki leni infoi bodyi Hsafe).
+      rewrite (O_fence (s_env h') ki leni infoi bodyi Hsafe).
       cbn [drop_front_matter map shift_tok shift_map].
       rewrite den_fold_single'. rewrite set_env_same.
-      specialize (IHi X F bd false 0 h (0 + lineno + 1) (N.of_nat (length bodyi) + 2 + lineno + 1) Hi Hbd).
+      specialize (IHi X F bd false 0 h' (0 + lineno + 1) (N.of_nat (length bodyi) + 2 + lineno + 1) Hi Hbd).
       rewrite Ep in IHi. rewrite IHi. reflexivity.
     - destruct Hwf.
     - destruct Hwf.
@@ -146,7 +165,7 @@ Section Wrap.
 
   Theorem directive_transparent w X F e0 r :
     wfW env orc w X ->
-    expected env orc w X (fun k => den_text_at env orc F false 0 (sh0 e0) (unlines X) k) 1 = Ok r ->
+    expected env orc F w X (fun h k => den_text_at env orc F false 0 h (unlines X) k) (sh0 e0) 1 = Ok r ->
     render_doc env orc (depth w + F) e0 (unlines (print_lines w X)) = Ok (fst (fst r), snd (fst r)).
   Proof.
     intros Hwf Hexp.
@@ -157,12 +176,12 @@ Section Wrap.
     - rewrite Hprint. apply (O_fence e0 k len info body Hsafe).
     - unfold den_tokens. cbn [map shift_tok shift_map]. rewrite den_fold_single'.
       pose proof (den_wrapper w X F
-                    (fun k => den_text_at env orc F false 0 (sh0 e0) (unlines X) k)
+                    (fun h k => den_text_at env orc F false 0 h (unlines X) k)
                     true 0 (sh0 e0) (0 + 1) (N.of_nat (length body) + 2 + 1)
-                    Hwf (fun lineno => eq_refl)) as Hd.
+                    Hwf (fun h' lineno => eq_refl)) as Hd.
       unfold fence_tok in Hd. rewrite Ep in Hd. rewrite Hd.
       change (0 + 1) with 1.
-      pose proof (expected_flag w X _ 1 r Hwf Hexp) as Hf.
+      pose proof (expected_flag w F X _ (sh0 e0) 1 r Hwf Hexp) as Hf.
       transitivity (Ok r); [exact Hexp|].
       destruct r as [[ns h] bb]. simpl in *. subst bb. reflexivity.
   Qed.
